@@ -695,6 +695,7 @@ class UnitCubeLemmas(Contract):
             # integer bounds L <= x <= B and an integer-valued R within 1/2 of x (= numpy.round(x), integer-valued by the first axiom), written with
             # integer variables (linear integer-real arithmetic; with is_int over real-sorted terms z3 does not terminate)
             ("rounding-stays-inside-integer-bounds", z3.Implies(z3.And(RR - x <= z3.Q(1, 2), x - RR <= z3.Q(1, 2), LL <= x, x <= BB), z3.And(LL <= RR, RR <= BB))),
+            ("unit-bounds:identity", z3.Implies(z3.And(lb == 0, ub == 1, nf == ub - lb), U == u)),
             ("rounding-keeps-integer-samples", z3.Implies(z3.And(rax, z3.IsInt(x)), rx == x)),
         ]
 
@@ -714,7 +715,8 @@ class LinspaceLemmas(Contract):
         return [("bounds", z3.Implies(z3.And(defn, n >= 2, 0 <= i, i <= n - 1), z3.And(0 <= t, t <= 1))),
                 ("first-point", z3.Implies(z3.And(defn, n >= 2), lin_t(0, n) == 0)),
                 ("last-point", z3.Implies(z3.And(defn, n >= 2), lin_t(n - 1, n) == 1)),
-                ("increasing", z3.Implies(z3.And(defn, n >= 2, lin_t(i + 1, n) == lin_t(i + 1, n)), lin_t(i, n) < lin_t(i + 1, n)))]
+                ("increasing", z3.Implies(z3.And(defn, n >= 2, lin_t(i + 1, n) == lin_t(i + 1, n)), lin_t(i, n) < lin_t(i + 1, n))),
+                ("positive-after-the-first-point", z3.Implies(z3.And(defn, n >= 2, 1 <= i), t > 0))]
 
 
 @register
@@ -1039,3 +1041,201 @@ class PyDOEGenerateUnitSamples(Contract):
                                                                                                    el2(res, r, i) == (z3.Select(F2.els(tp), r, i) + 1) / 2)))),
             ("no-seeding-without-random-state", z3.Implies(z3.Not(lhs), me1._seeder.default_seed == me0._seeder.default_seed)),
         ]
+
+
+# ---------------------------------------------------------------------------- OATDOE
+OAT = "gemseo.algos.doe.oat_doe.oat_doe.OATDOE"
+schema(OAT, dict(C.class_schema(BASE + "#c14")))
+LF1 = TList(F1)
+
+
+def oat_moved(x, step):
+    """The step rule as coded: one step up unless that leaves the unit interval, then one step down."""
+    return z3.If(x + step > 1, x - step, x + step)
+
+
+def _oat_inv(c, k):
+    x0, step = c.old.initial_point, c.old.step
+    pts = c.locals["points"]
+    p = x0.obj.shape[0]
+    j, m = z3.Int("j!oa"), z3.Int("m!oa")
+    pj = pts.elems[j]
+    return [("one-point-per-step-so-far", pts.n == k + 1),
+            ("point-lengths", fa([j], z3.Implies(z3.And(0 <= j, j <= k), F1.dim(pj) == p), pts.elems[j])),
+            ("points", fa([j, m], z3.Implies(z3.And(0 <= j, j <= k, 0 <= m, m < p), F1.els(pj)[m] == z3.If(m < j, oat_moved(x0.obj.elems[m], step), x0.obj.elems[m])),
+                          F1.els(pj)[m]))]
+
+
+@register
+class OATGenerateUnitSamples(Contract):
+    """d + 1 points for an initial point of length d: the initial point, then point j + 1 = point j with component j moved by one step (up unless that
+    leaves [0, 1], then down); every point is in the unit hypercube when the initial point is (KNOWN FINDING: not for a step > 1/2)."""
+
+    targets = (OAT + "._generate_unit_samples",)
+    prop = ("C14",)
+    numpy = "precise"
+    c14 = True
+    params = {"design_space": DSO, "step": TReal, "initial_point": F1, "settings": KW}
+    returns = F2
+    loops = {0: LoopSpec(anchor="range(len(initial_point))", inv=_oat_inv, modifies=("points",), local_types={"points": LF1, "i": TInt, "current_point": F1})}
+
+    def requires(self, c):
+        x0 = c.old.initial_point
+        m = z3.Int("m!oq")
+        e = x0.obj.elems[m]
+        # step: PositiveFloat (OATDOE_Settings / MorrisDOE_Settings); the initial point is a point of the unit hypercube (MorrisDOE passes unit samples)
+        return [("positive-step", c.old.step > 0), ("at-least-one-component", x0.obj.shape[0] >= 1),
+                ("initial-point-in-unit-hypercube", z3.ForAll([m], z3.Implies(z3.And(0 <= m, m < x0.obj.shape[0]), z3.And(0 <= e, e <= 1)), patterns=[e]))]
+
+    def finding_regions(self, c):
+        return {"step-larger-than-one-half": c.old.step > z3.Q(1, 2)}
+
+    def ensures(self, c):
+        x0, step, res = c.old.initial_point, c.old.step, c.result
+        p = x0.obj.shape[0]
+        r, m = z3.Int("r!oa"), z3.Int("m!oa")
+        rng = z3.And(0 <= r, r <= p, 0 <= m, m < p)
+        e = el2(res, r, m)
+        return [("dimension-plus-one-points", res.obj.shape[0] == p + 1),
+                ("one-column-per-component", res.obj.shape[1] == p),
+                ("one-factor-at-a-time", fa([r, m], z3.Implies(rng, e == z3.If(m < r, oat_moved(x0.obj.elems[m], step), x0.obj.elems[m])), e)),
+                ("points-in-unit-hypercube", fa([r, m], z3.Implies(rng, z3.And(0 <= e, e <= 1)), e))]
+
+
+@register
+class ComputeDOEFromDimension(ComputeDOE):
+    """variables_space given as a dimension d: the sampled space is the new design space with the single float variable "x" of size d and bounds
+    [0, 1] (for which untransform_vect is the identity: UnitCubeLemmas `unit-bounds:identity`)."""
+
+    targets = (BASE + ".compute_doe",)
+    variant = "dimension"
+    c14_design_space_schema = DS + "#c14"
+    params = {"variables_space": TInt, "unit_sampling": TBool, "settings_model": TVal, "settings": KW}
+    modifies = ("self._seeder",) + UT_GHOSTS
+
+    def requires(self, c):
+        return []
+
+    def ensures(self, c):
+        s = c.old.self
+        us = c.old.unit_sampling
+        us = z3.BoolVal(us) if isinstance(us, bool) else us
+        gf, gv, gn = ut_ghosts(c)
+        r = arr2(c.result)
+        d = c.old.variables_space
+        unit = gen_unit(s._algo_name, d, filtered(validated(s._algo_name, c.arg("settings_model").term, kw_term(c.old.settings)),
+                                                 str_lit("gemseo.algos.doe.base_doe_settings.BaseDOESettings")), s._seeder.default_seed)
+        v = TermDict(D.VARS, gv)
+        x = str_lit("x")
+        return [("unit-sampling:the-unit-samples", z3.Implies(us, r == unit)),
+                ("samples-are-the-design-space-image-of-the-unit-samples", z3.Implies(z3.Not(us), r == untransform(gf, gv, gn, unit))),
+                ("integer-normalization-enabled-for-the-transformation", z3.Implies(z3.Not(us), gf)),
+                ("the-space-is-one-float-variable-x-of-size-d", z3.Implies(z3.Not(us), z3.And(v.n == 1, v.keys[0] == x, v.member[x], D.size(v.vals[x]) == d,
+                                                                                             D.VAR.accessor("type")(v.vals[x]) == str_lit("float")))),
+                ("sample-count-and-dimension", z3.And(F2.dim(r, 0) == F2.dim(unit, 0), F2.dim(r, 1) == F2.dim(unit, 1)))]
+
+
+# ---------------------------------------------------------------------------- lemmas: determinism, documented counts
+@register
+class DeterminismLemmas(Contract):
+    """"The same algorithm, settings and seed always generate the same samples": congruence of the (uninterpreted) third-party sampler composed with
+    the proved seed rule - a given seed does not depend on the state of the Seeder, the default seed only on the number of earlier calls."""
+
+    targets = ()
+    prop = ("C14",)
+    lemma = True
+
+    def lemmas(self):
+        a1, a2 = z3.Consts("a1 a2", StrS)
+        d1, d2, s1, s2, def1, def2, given = z3.Ints("d1 d2 s1 s2 def1 def2 given")
+        n1, n2 = z3.Consts("n1 n2", ValS)
+        o1, o2 = z3.Consts("o1 o2", KW.sort())
+        seed = lambda default, none: seed_of_get_seed(default, none, given)  # noqa: E731
+        return [("same-arguments-same-samples", z3.Implies(z3.And(a1 == a2, d1 == d2, n1 == n2, s1 == s2, o1 == o2), tp_samples(a1, d1, n1, s1, o1) == tp_samples(a2, d2, n2, s2, o2))),
+                ("given-seed:independent-of-the-seeder-state", seed(def1, z3.BoolVal(False)) == seed(def2, z3.BoolVal(False))),
+                ("given-seed-zero-is-used", z3.Implies(given == 0, seed(def1, z3.BoolVal(False)) == 0)),
+                ("given-seed:same-samples-on-every-run", tp_samples(a1, d1, n1, seed(def1, z3.BoolVal(False)), o1) == tp_samples(a1, d1, n1, seed(def2, z3.BoolVal(False)), o1)),
+                ("default-seed:same-samples-after-the-same-number-of-calls", z3.Implies(def1 == def2, tp_samples(a1, d1, n1, seed(def1, z3.BoolVal(True)), o1)
+                                                                                       == tp_samples(a1, d1, n1, seed(def2, z3.BoolVal(True)), o1))),
+                ("default-seeds-of-successive-calls-differ", seed(def1, z3.BoolVal(True)) != seed(def1 + 1, z3.BoolVal(True)))]
+
+
+@register
+class DocumentedCountLemmas(Contract):
+    """Arithmetic of the documented point counts (pure integer arithmetic over the spec functions; MorrisDOE's own code is NOT verified against it)."""
+
+    targets = ()
+    prop = ("C14",)
+    lemma = True
+
+    def lemmas(self):
+        n, d, L, r = z3.Ints("n d L r")
+        lem = []
+        for cls, nm in ((AXIAL, "axial"), (FACTORIAL, "factorial"), (COMPOSITE, "composite")):
+            hyp = z3.And(d >= 1, pow2(d) >= 1, L >= 1)
+            lem += [(f"{nm}:count-increases-with-the-levels", z3.Implies(hyp, strat_count(cls, d, L) < strat_count(cls, d, L + 1))),
+                    (f"{nm}:more-than-the-centre", z3.Implies(hyp, strat_count(cls, d, L) >= 2))]
+        # Morris: r = n // (d + 1) replicates of an OAT design of d + 1 points (floor division: r (d + 1) <= n < (r + 1) (d + 1))
+        floor = z3.And(d >= 1, n >= 1, r * (d + 1) <= n, n < (r + 1) * (d + 1))
+        lem += [("morris:documented-count-never-exceeds-the-request", z3.Implies(floor, r * (d + 1) <= n)),
+                ("morris:no-replicate-iff-fewer-samples-than-one-oat-design", z3.Implies(floor, (r == 0) == (n < d + 1))),
+                ("oat:dimension-plus-one", z3.Implies(d >= 1, d + 1 >= 2)),
+                ]
+        return lem
+
+
+# ---------------------------------------------------------------------------- stratified OpenTURNS designs: the common base
+from pyvc.plug_c14 import strat_weight  # noqa: E402
+
+schema(STRAT, {})
+
+
+@register
+class StratifiedNLevelsAbstract(Contract):
+    targets = (STRAT + "._compute_n_levels",)
+    prop = ("C14",)
+    params = {"n_samples": TInt, "dimension": TInt}
+    returns = TInt
+    raises = {"ValueError": lambda c: 1 + strat_weight(c.old.dimension) > c.old.n_samples}
+    trusted = True
+    description = ("abstract method: the contract proved for the three implementations (OTAxialDOE, OTFactorialDOE, OTCompositeDOE: _ComputeNLevels), "
+                   "with the points-per-level weight of the class written c14_stratified_weight(d)")
+
+    def requires(self, c):
+        return [("positive-number-of-samples", c.old.n_samples > 0), ("dimension-at-least-one", c.old.dimension >= 1)]
+
+    def ensures(self, c):
+        n, d, L = c.old.n_samples, c.old.dimension, c.result
+        w = strat_weight(d)
+        return [("at-least-one-level", L >= 1), ("documented-count-never-exceeds-the-request", 1 + w * L <= n), ("largest", 1 + w * (L + 1) > n)]
+
+
+@register
+class StratifiedGenerateSamples(Contract):
+    """A maximum number of samples is given (n_samples > 0): the design has the documented count 1 + weight(d) * levels <= n_samples rows, d columns,
+    and (centre 1/2, levels linspace(0, 1, levels + 1)[1:]) every entry is in [0, 1]."""
+
+    targets = (STRAT + ".generate_samples",)
+    variant = "n_samples"
+    prop = ("C14",)
+    numpy = "precise"
+    c14 = True
+    params = {"n_samples": TInt, "dimension": TInt}
+    returns = F2
+    raises = {"ValueError": lambda c: 1 + strat_weight(c.old.dimension) > c.old.n_samples}
+
+    def axioms(self, c):
+        from pyvc.plug_c14 import linspace_facts
+
+        return [(f"linspace-t:{i}", f) for i, f in enumerate(linspace_facts())]
+
+    def requires(self, c):
+        return [("a-maximum-number-of-samples-is-given", c.old.n_samples > 0), ("dimension-at-least-one", c.old.dimension >= 1)]
+
+    def ensures(self, c):
+        n, d, res = c.old.n_samples, c.old.dimension, c.result
+        r, i = z3.Int("r!sg"), z3.Int("i!sg")
+        e = el2(res, r, i)
+        return [("never-more-than-requested", res.obj.shape[0] <= n),
+                ("one-column-per-component", res.obj.shape[1] == d),
+                ("points-in-unit-hypercube", fa([r, i], z3.Implies(z3.And(0 <= r, r < res.obj.shape[0], 0 <= i, i < d), z3.And(0 <= e, e <= 1)), e))]
